@@ -69,18 +69,22 @@ def year_inversion_case(rng: random.Random) -> Dict[str, Any]:
     years are not monotone (2020, 2019, 2020), so a year has more than one block of rows in the detail table."""
     year = rng.randint(2017, 2021)
     hists = {}
+    # variants: the year has earlier rows / is sparse (its first gain/loss row comes after a row of the next year) / its earlier
+    # rows are hidden by a from-date on its last day
+    variant = rng.choice(("earlier-rows", "sparse-year", "from-date-hides-earlier-rows"))
     for asset in ("AAA", "BBB")[: rng.randint(1, 2)]:
         b = families.HB(asset=asset)
         b.acquire(families.T(year - 1, rng.randint(1, 11), rng.randint(1, 28)), 10, 100)
-        b.acquire(families.T(year, 3, 1), 5, 150, ttype="INTEREST")
-        b.dispose(families.T(year, 6, 1), 1, 180)
+        if variant != "sparse-year":
+            b.acquire(families.T(year, 3, 1), 5, 150, ttype="INTEREST")
+            b.dispose(families.T(year, 6, 1), 1, 180)
         b.dispose(families.T(year, 12, 31, 22, rng.randint(0, 59)), 1, 200, offset=840)  # own year: year + 1
         b.dispose(families.T(year, 12, 31, 23, rng.randint(0, 59)), 1, 210, offset=rng.choice((-720, -480, 0)), ttype="GIFT")  # own year: year
         b.dispose(families.T(year + 1, 1, 1, rng.randint(0, 9), 0), 1, 220, offset=rng.choice((0, 330, 540)))  # own year: year + 1
         if rng.random() < 0.5:
             b.dispose(families.T(year + 1, 5, 1), 1, 230)
         hists[asset] = b.done(rng, shuffle=rng.random() < 0.5)
-    return {"hists": hists, "country": "us", "language": "en", "args": ["-m", rng.choice(("fifo", "lifo", "hifo", "lofo")), "-g", "en"], "ini_methods": {}, "schedule": {}, "from": None, "to": None}
+    return {"hists": hists, "country": "us", "language": "en", "args": ["-m", rng.choice(("fifo", "lifo", "hifo", "lofo")), "-g", "en"], "ini_methods": {}, "schedule": {}, "from": f"{year}-12-31" if variant == "from-date-hides-earlier-rows" else None, "to": None, "variant": variant}
 
 
 def _one(ctx: Any, expected: Expected, case: Dict[str, Any], name: str, family: str) -> None:
